@@ -71,7 +71,7 @@ def enc(x):
     if isinstance(x, str):
         return x
     for k, v in _NONSTR.items():
-        if v is x or (type(v) is type(x) and not isinstance(x, object().__class__) and v == x):
+        if v is x:
             return {'py': k}
     return {'py': repr(x)}
 
@@ -80,7 +80,7 @@ def dec(x):
     if isinstance(x, dict) and 'py' in x:
         if x['py'] in _NONSTR:
             return _NONSTR[x['py']]
-        return eval(x['py'], {'__builtins__': {'range': range, 'object': object}})
+        return eval(x['py'], {'__builtins__': {'range': range, 'object': object, 'True': True, 'False': False, 'None': None}})
     return x
 
 
